@@ -10,27 +10,21 @@ test whose parse is error-free passes afterwards, and a second update leaves the
 byte-identical.  Reading a corpus file and writing it back never merges, splits or drops tests,
 whatever delimiter lengths and suffixes it uses.*
 
-Clause map (model = `TsVerif/C20/Model.lean`, tied to crates/cli/src/test.rs by correspondence):
+Clause map (model = `TsVerif/C20/Model.lean`, tied to crates/cli/src/test.rs and lib/binding_rust `format_sexp` by
+correspondence on every run; "general" theorems live in `Idempotent.lean`, which imports this file; they are stated for
+the model with the committed repairs, which is the variant the behavioural probes select on /repo HEAD).
 
-* "names, attributes, order and input unchanged"  → `update_preserves` is FALSE for the faithful
-  model (witnesses `update_drops_skip`, `update_drops_other_platform`, `update_duplicates_per_language`);
-  proved: `updateEntries_keys` / `update_preserves_partial` (entries that are run exactly once).
-* "reading a file and writing it back never merges, splits or drops tests, whatever delimiter lengths
-  and suffixes" → `parse_write_roundtrip_partial` (all lists of `Simple` corrections, all delimiter
-  lengths ≥ 3, all admissible suffixes); the full statement is FALSE (witnesses
-  `roundtrip_fails_delimiter_in_input`, `roundtrip_fails_untrimmed_name`); `update_preserves_simple` composes both results without a round-trip hypothesis.
-* "reading never loses bytes"                       → `splitIncl_flatten` (Roundtrip.lean).
-* "a rewritten expectation reads back as itself" → `format_normalize_spec` (all balanced token
-  sequences = what the runtime prints for error-free trees; class membership measured on every run),
-  halves `format_tokens_spec` / `normalize_pretty` / `normalize_charwise`; FALSE with quoted tokens for
-  the unchanged code (finding C20-format-sexp-quote-state, witness `format_sexp_quote_state`).
-* "every updated test whose parse is error-free passes afterwards" → `update_passes_partial` (file level:
-  run-once tests, `Simple` corrections without `:cst`; via `roundtrip_built`, `normalize_section`,
-  `updateEntries_all2`, `updateLang_output_pass`); the full statement inherits the falsity of `update_preserves`.
-* "a second update leaves the file byte-identical" → `update_idempotent_partial` (model with the committed repairs:
-  files without leading text, `Simple` corrections without `:cst`, one language per test, expectations
-  empty or balanced S-expressions, parser answers `ActOK`, attribute flags canonical for the attribute
-  text — the last three measured on every real case); decided by the judge on every real file.
+| phrase of the property | theorem(s) | status / what is weaker than the text |
+|---|---|---|
+| "on any well-formed corpus file" | — | "well-formed" is made precise by the hypotheses: the run writes (no `:fail-fast` stop, no unknown language); the corrections are `SimpleS suf` (delimiters ≥ 3; name lines not blank / marker / `===…`; attribute text = marker lines; no line of an input/expectation is a `===` line with the file's suffix, nor a `---` line with the file's suffix that is longer than (input) / at least as long as (expectation) the divider; in an unsuffixed file no `===` line at all); `EntryOKG` (≥ 1 language, `has_fields` as the reader computes it, expectation empty / ONE balanced S-expression, resp. trimmed CST text, usable parser answer); attribute flags canonical for the attribute text.  Each guard has a witness that it is needed (below); the data-dependent ones are MEASURED on every real entry (obligations `tie:…`). |
+| "rewrites only expected outputs: test names, attributes, order and input bytes are unchanged" | `update_preserves_general` (file level, with or without `--include` or `--exclude`: same tests in the same order, each with the same name, attribute text, attribute FLAGS, input, delimiter lengths; leading text and delimiter suffix unchanged); entry level `updateEntries_keys_fixed`, `updateEntriesF_all2`; for the code BEFORE the repairs `update_preserves_partial`/`update_preserves_simple` + witnesses `update_drops_skip`, `update_drops_other_platform`, `update_duplicates_per_language`, `filtered_update_reformats_cst` | proved under the hypotheses above.  "input bytes": the model works on the decoded `String` (files are UTF-8; a non-UTF-8 file is an I/O error in the real code: not modelled).  Text BETWEEN tests is part of the previous test's expectation section and may be rewritten — consistent with the text. |
+| "every updated test whose parse is error-free passes afterwards" | `update_passes_general`; earlier special case `update_passes_partial`; ingredients `format_normalize_spec` (`normalize_sexp_output (format_sexp s) = s` for every balanced token sequence = what the runtime prints for error-free trees, class membership measured), `normalize_section`, `readbackG`, `trim_section` (CST) | proved for tests the filter lets run, not skipped / other platform / `:error`; for a test with several languages "passes" is stated for the FIRST language (one expectation cannot match two different renderings: inherent, example `fExL`).  "error-free" = the rendering contains neither `ERROR` nor `MISSING` (what the code tests). |
+| "a second update leaves the file byte-identical" | `update_idempotent_general`, `update_idempotent_unfiltered`; special case `update_idempotent_partial`; witnesses that the expectation guard is needed: `idempotent_fails_two_toplevel_expectation`, `format_sexp_quote_state` (code before the quote repair) | proved (bytes) under the hypotheses above; NOT covered: expectations that are not one balanced S-expression (false there), inputs with `===suffix` lines. |
+| "Reading a corpus file and writing it back never merges, splits or drops tests, whatever delimiter lengths and suffixes it uses" | `roundtrip_suffixed` / `parse_write_roundtrip_partial` / `roundtrip_built` (every list of `SimpleS` corrections, all delimiter lengths ≥ 3, every admissible suffix: one entry per correction, in order, same name / attribute text / flags / input / delimiter lengths / expectation read back); `splitIncl_flatten` (reading loses no bytes); exactness witnesses `roundtrip_fails_delimiter_in_input`, `roundtrip_fails_equal_dash_in_output`, `roundtrip_fails_own_suffix_in_input`, `roundtrip_fails_equals_line_unsuffixed`, `roundtrip_fails_untrimmed_name` | proved for WRITTEN files (`parse (write cs)`); "read then write then read" for an arbitrary file `f` follows only when `(parse f)`'s entries satisfy `SimpleS` — that is a hypothesis on `f`, measured per run through the correspondence of `parseFile` with the real `parse_tests` and the judge's `classify`.  Delimiter lengths < 3 are not delimiters. |
+| (implicit) the Ok/Err result, directory runs, `strip_sexp_fields` | `updateStatus`, directory mode, `stripSexpFields` — modelled and corresponded, no theorem | correspondence only |
+
+Everything above is about the MODEL; the step to the Rust code is the per-run correspondence (entries, rewritten bytes of two
+update rounds, status, second file of directory runs: equal on every explored file) and the judge on the real files.
 -/
 namespace TsVerif.C20
 
